@@ -20,7 +20,9 @@ klass('MessageTooBig', ['SmtpError'])
 klass('BadReply', ['SmtpError'])
 klass('ServerAuthError', ['SmtpError'], fields={'reply': 'Reply'})
 
-klass('IO', ghost={'sent': 'List[Opt[Str]]'}, fields={'encrypted': 'Bool', 'recv_buffer': 'Bytes', 'address': 'Any'})
+klass('IO', ghost={'sent': 'List[Opt[Str]]'}, fields={'recv_buffer': 'Bytes', 'address': 'Tuple[Str, Int]', 'socket': 'Any'})
+extern('IO.encrypted', params={'self': 'IO'}, returns='Bool', is_property=True, pure=True, reads=['self.socket'],
+       notes='IO.encrypted: isinstance(self.socket, SSLSocket) -- a function of the socket object')
 klass('Extensions', ghost={'state': 'Int'})
 klass('Handlers')
 klass('SSLContext')
@@ -113,8 +115,6 @@ extern('Extensions.build_string', params={'self': 'Extensions', 'header': 'Opt[S
 extern('Extensions.reset', params={'self': 'Extensions'}, modifies=['self.state'])
 extern('Extensions.drop', params={'self': 'Extensions', 'name': 'Str'}, modifies=['self.state'],
        ensures=['not (name in self)'])
-extern('IO.encrypt_socket_server', params={'self': 'IO', 'context': 'SSLContext'}, returns='Bool', yields=True,
-       modifies=['self.encrypted'], raises={})
 
 CMD_MOD = ['contents(self.io.sent)', 'contents(self.trace)', 'any(Reply).code', 'any(Reply).message']
 EXT_MOD = ['self.extensions.state']
@@ -309,18 +309,15 @@ cmd('custom', params={'command': 'Str', 'arg': 'Opt[Bytes]'}, props=['C07'],
 klass('IO', fields={'socket': 'Any'})
 contract('Server._encrypt_session', module=M, props=['C08', 'C14'],
          params={'self': 'Server'}, returns='Bool',
-         requires=S_OK + ['in_timeout_scope()'],
+         requires=S_OK + ['in_timeout_scope()', 'self.context != None'],
+         raises={'OSError': [], 'Timeout': []},
          ensures=['implies(result, self.io.encrypted)', 'len(self.io.sent) == old(len(self.io.sent))',
+                  'implies(result, self.io.recv_buffer == b"")',
                   'implies(not result, ' + NOCB + ')', TRACE_PREFIX, 'len(self.trace) <= old(len(self.trace)) + 2',
                   ],
-         modifies=['contents(self.trace)', 'self.io.encrypted', 'fresh'])
-extern('IO.encrypt_socket_server', params={'self': 'IO', 'context': 'SSLContext'}, returns='Bool', yields=True,
-       requires=['in_timeout_scope()'],
-       modifies=['self.encrypted'], ensures=['implies(result, self.encrypted)', 'implies(not result, self.encrypted == old(self.encrypted))'],
-       notes='IO.encrypt_socket_server: TLS handshake, blocks on the peer (G4); its buffer contract: C08 (smtp/io.py)')
-
+         modifies=['contents(self.trace)', 'self.io.socket', 'self.io.recv_buffer', 'fresh'])
 cmd('STARTTLS', props=['C07', 'C08', 'C14'],
-    requires=S_OK,
+    requires=S_OK + ['self.context != None'],
     ensures=[PREFIX, TRACE_PREFIX,
              'implies(not old("STARTTLS" in self.extensions), ' + NOCB + ' and ' + SENT1 + ' and ' + LAST + ' == "500")',
              'implies(old("STARTTLS" in self.extensions) and bool(arg), ' + NOCB + ' and ' + SENT1 + ' and ' + LAST + ' == "501")',
@@ -328,31 +325,33 @@ cmd('STARTTLS', props=['C07', 'C08', 'C14'],
              + NOCB + ' and ' + SENT1 + ' and ' + LAST + ' == "503")',
              # after a successful handshake the server is back in its just-greeted state
              'implies(self.io.encrypted and not old(self.io.encrypted), self.ehlo_as is None '
-             '        and self.have_mailfrom is None and self.have_rcptto is None and ncalls("Extensions.drop") == 1)',
+             '        and self.have_mailfrom is None and self.have_rcptto is None and ncalls("Extensions.drop") == 1 '
+             # ... and nothing received in clear text is left to be parsed as a command
+             '        and self.io.recv_buffer == b"")',
              'self.bannered == old(self.bannered) and self.authed == old(self.authed)'],
-    raises={'StopIteration': []},
-    modifies=CMD_MOD + EXT_MOD + ['self.have_mailfrom', 'self.have_rcptto', 'self.ehlo_as', 'self.io.encrypted', 'fresh'])
+    raises={'StopIteration': [], 'OSError': [], 'Timeout': []},
+    modifies=CMD_MOD + EXT_MOD + ['self.have_mailfrom', 'self.have_rcptto', 'self.ehlo_as', 'self.io.socket',
+                                  'self.io.recv_buffer', 'fresh'])
 
-extern('AuthSession.server_attempt', params={'self': 'AuthSession', 'arg': 'Opt[Bytes]'}, returns='Any', yields=True,
-       raises={'ValueError': [], 'ServerAuthError': ['exc.reply != None']},
-       notes='AuthSession.server_attempt at the Server call site: returns credentials or raises ValueError / '
-             'ServerAuthError (its own raises-only obligation: C08, smtp/auth.py)')
-
-cmd('AUTH', props=['C07', 'C08'],
-    requires=S_OK,
-    ensures=[PREFIX, TRACE_PREFIX, SENT1,
-             'implies(not old("AUTH" in self.extensions), ' + NOCB + ' and ' + LAST + ' == "500")',
+AUTHS = 'cast(self.extensions.getparam("AUTH"), AuthSession)'
+GROW = 'len(self.io.sent) >= old(len(self.io.sent)) + 1'
+cmd('AUTH', props=['C07', 'C08', 'C14'],
+    requires=S_OK + ['implies("AUTH" in self.extensions and self.extensions.getparam("AUTH") is not None, '
+                     + AUTHS + '.io is self.io and ' + AUTHS + '.auth != None)'],
+    ensures=[PREFIX, TRACE_PREFIX, GROW,
+             'implies(not old("AUTH" in self.extensions), ' + NOCB + ' and ' + SENT1 + ' and ' + LAST + ' == "500")',
              # AUTH is refused before EHLO, after a successful AUTH and inside a mail transaction
              'implies(old("AUTH" in self.extensions) and (not bool(old(self.ehlo_as)) or old(self.authed) '
-             '        or bool(old(self.have_mailfrom))), ' + NOCB + ' and ' + LAST + ' == "503")',
+             '        or bool(old(self.have_mailfrom))), ' + NOCB + ' and ' + SENT1 + ' and ' + LAST + ' == "503")',
              '(' + NOCB + ') or (' + ONECB + '"AUTH")',
              # authenticated only after the application accepted the credentials
              'self.authed == (old(self.authed) or ((' + ONECB + '"AUTH") and ' + LAST + ' == "235"))',
+             # a malformed AUTH exchange ends with an error reply, not with the session
+             'implies(' + NOCB + ', is_err_code(' + LAST + '))',
              'self.have_mailfrom == old(self.have_mailfrom) and self.have_rcptto == old(self.have_rcptto) '
              'and self.ehlo_as == old(self.ehlo_as)'],
-    raises={'StopIteration': [SENT1, ONECB + '"AUTH"'], 'AssertionError': []},
+    raises={'StopIteration': [GROW, ONECB + '"AUTH"'], 'AssertionError': [], 'ConnectionLost': [], 'Timeout': []},
     modifies=CMD_MOD + ['self.authed', 'fresh'])
-
 
 # ---------------------------------------------------------------------------- main loop (C07, C14)
 extern('Server._handle_command#dispatch', params={})
@@ -360,7 +359,7 @@ contract('Server._handle_command', kind='extern',
          params={'self': 'Server', 'which': 'Bytes', 'arg': 'Opt[Bytes]'}, yields=True,
          requires=S_OK,
          modifies=CMD_MOD + EXT_MOD + ['self.have_mailfrom', 'self.have_rcptto', 'self.ehlo_as', 'self.bannered',
-                                       'self.authed', 'self.io.encrypted', 'fresh'],
+                                       'self.authed', 'self.io.socket', 'self.io.recv_buffer', 'fresh'],
          ensures=['len(self.io.sent) >= old(len(self.io.sent)) + 1'] + [x for x in S_OK],
          raises={'StopIteration': S_OK, 'ConnectionLost': S_OK, 'UnicodeDecodeError': S_OK, 'OtherException': S_OK,
                  'Timeout': S_OK},
@@ -381,5 +380,5 @@ contract('Server.handle', module=M, props=['C07', 'C14'],
              'OtherException': ['len(self.io.sent) >= 1 and self.io.sent[len(self.io.sent) - 1] == "421"']},
          locals={'command': 'Opt[Bytes]', 'arg': 'Opt[Bytes]'},
          modifies=CMD_MOD + EXT_MOD + ['self.have_mailfrom', 'self.have_rcptto', 'self.ehlo_as', 'self.bannered',
-                                       'self.authed', 'self.io.encrypted', 'fresh'],
+                                       'self.authed', 'self.io.socket', 'self.io.recv_buffer', 'fresh'],
          loops={0: dict(inv=S_OK)})
